@@ -162,7 +162,59 @@ def compare_table(tr: TableRef, rec, case, log, view="open", table=None, full=Tr
                 rec.violation("cell_value", {"view": view, "want_type": type(want).__name__, "got_type": type(got).__name__, **xf},
                               {"table": tr.where(), "r": r, "c": c, "want": repr(want)[:80], "got": repr(got)[:80], "log": log.export(6) if log else None}, case=case)
                 return False
+    return window_readouts(tr, t, rec, case, log, view, xf)
+
+
+def window_readouts(tr, t, rec, case, log, view, xf):
+    """The other read-outs of the same grid: iter_rows / iter_cols over windows (bounds of 0, the last index, None, a middle
+    window) and cell(r, c) / cell("A1") at the window's corners must report exactly the model's window."""
+    g = tr.grid
+    if g.rows == 0 or g.cols == 0 or g.rows * g.cols > 4096:
+        return True
+    k = rec.counters.get("lockstep_compares", 0)
+    R, C = g.rows - 1, g.cols - 1
+    wins = [(0, 0, 0, 0), (None, 0, None, None), (None, None, None, 0), (R, R, C, C), (R // 2, None, C // 2, None), (0, R // 2, 0, C // 2), (None, None, None, None)]
+    for (r0, r1, c0, c1) in (wins[k % len(wins)], wins[(k * 3 + 1) % len(wins)]):
+        a0, a1 = (0 if r0 is None else r0), (R if r1 is None else r1)
+        b0, b1 = (0 if c0 is None else c0), (C if c1 is None else c1)
+        want_rows = [tuple(g.d[r][b0:b1 + 1]) for r in range(a0, a1 + 1)]
+        want_cols = [tuple(g.d[r][c] for r in range(a0, a1 + 1)) for c in range(b0, b1 + 1)]
+        for api, want in (("iter_rows", want_rows), ("iter_cols", want_cols)):
+            rec.count("window_readouts")
+            try:
+                got = [tuple(x) for x in getattr(t, api)(min_row=r0, max_row=r1, min_col=c0, max_col=c1, values_only=True)]
+            except Exception as e:  # noqa: BLE001
+                rec.violation("window_readout", {"view": view, "api": api, "how": "raised " + type(e).__name__, **xf},
+                              {"table": tr.where(), "window": [r0, r1, c0, c1], "error": repr(e)[:200], "log": log.export(6) if log else None}, case=case)
+                return False
+            ok = len(got) == len(want) and all(len(x) == len(y) and all((p is None and q is None) or V.same_value(p, q) for p, q in zip(x, y)) for x, y in zip(want, got))
+            if not ok:
+                rec.violation("window_readout", {"view": view, "api": api, "how": "shape" if [len(x) for x in got] != [len(x) for x in want] else "values", **xf},
+                              {"table": tr.where(), "window": [r0, r1, c0, c1], "want_shape": [len(want), len(want[0]) if want else 0], "got_shape": [len(got), len(got[0]) if got else 0],
+                               "log": log.export(6) if log else None}, case=case)
+                return False
+        for (r, c) in ((a0, b0), (a1, b1)):
+            rec.count("cell_readouts")
+            for how, args in (("rowcol", (r, c)), ("a1", (_a1(r, c),))):
+                try:
+                    got = t.cell(*args).value
+                except Exception as e:  # noqa: BLE001
+                    rec.violation("window_readout", {"view": view, "api": "cell", "how": "raised " + type(e).__name__, **xf}, {"table": tr.where(), "at": [r, c], "form": how, "error": repr(e)[:200]}, case=case)
+                    return False
+                want = g.d[r][c]
+                if not ((want is None and got is None) or V.same_value(want, got)):
+                    rec.violation("window_readout", {"view": view, "api": "cell", "how": "values", **xf}, {"table": tr.where(), "at": [r, c], "form": how, "want": repr(want)[:80], "got": repr(got)[:80]}, case=case)
+                    return False
     return True
+
+
+def _a1(r, c):
+    s = ""
+    c += 1
+    while c:
+        c, m = divmod(c - 1, 26)
+        s = chr(65 + m) + s
+    return f"{s}{r + 1}"
 
 
 def resolve(op, grid):
